@@ -138,3 +138,5 @@ func actType(a *explore.Action) string {
 	}
 	return "BankSend"
 }
+
+func sortStrings(s []string) { sort.Strings(s) }
